@@ -238,6 +238,12 @@ def r10_5(run):
     srcs = set(chain.values())
     ok = any(v.endswith(".constant") or v.endswith("._constant") for v in srcs) and len(keep) >= 2 and all(
         any(cfg.dominates(cfg.node_for(x), m) for m in mirrors if m is not None) for x in keep if cfg.node_for(x) is not None)
+    for x in keep:
+        v = x.value
+        plain = isinstance(v, ast.Attribute) and v.attr in ("constant", "_constant")
+        run.ob("R10.5", loc(fi, x), fi.short, f"`{norm(x.targets[0])}` is a verbatim copy of another tensor's flag", plain,
+               f"= {norm(v)}" if plain else
+               f"`{norm(v)[:60]}` mixes in the flag inferred from the op's inputs: an in-place update from constant operands turns a non-constant target constant")
     root_ok = False
     for x in keep:
         src = x.value
